@@ -178,9 +178,25 @@ MovesUnionH(h, kn) ==
                      (IF Len(t.vis) >= 3 THEN MapS(a, LAMBDA c : MDrop(i, <<Col(c)>>)) \o MapS(g, LAMBDA c : MDrop(i, <<Col(c)>>)) ELSE <<>>)
                      \o (IF NameFree(t, "a") /\ g # <<>> THEN <<MRename(i, <<[c |-> Col(g[1]), n |-> "a"]>>)>> ELSE <<>>)
                      \o (IF NameFree(t, "g") /\ a # <<>> THEN <<MRename(i, <<[c |-> Col(a[1]), n |-> "g"]>>)>> ELSE <<>>)
-    IN  IF jc # 0 THEN <<>>
+    IN  IF jc # 0
+        THEN \* a new column under the name of a column that an operand had hidden
+             LET t == h[jc] iv == VisOfTy(t, "int") IN
+             IF iv = <<>> \/ "probe" \in VisNames(t) THEN <<>>
+             ELSE Flat(MapS(<<"a", "g">>, LAMBDA n : IF NameFree(t, n) THEN <<MMutate(jc, <<KV(n, Fn2("add", Col(iv[1]), LitI(1)))>>)>> ELSE <<>>))
         ELSE pre(h[lc], lc) \o pre(h[rc], rc)
              \o <<MUnion(lc, rc, FALSE), MUnion(lc, rc, TRUE)>>
+
+(* an ordered / sliced / aliased operand of a union (the subquery rules of union; the alias() may sit on either side) *)
+MovesUnionS(h, kn) ==
+    LET lc == LCur(h)
+        rc == RCur(h)
+        jc == JCur(h)
+        pre(t, i) == LET a == ColOf(t, "a") b == ColOf(t, "b") IN
+                     (IF a # <<>> /\ b # <<>> THEN <<MArrange(i, <<Ord(Col(b[1]), FALSE, "first"), Ord(Col(a[1]), TRUE, "last")>>)>> ELSE <<>>)
+                     \o <<MSlice(i, 2, 0), MSlice(i, 0, 0), MAlias(i, t.name, TRUE), MAlias(i, t.name, FALSE)>>
+                     \o MapS(b, LAMBDA c : MFilter(i, <<Fn2("gt", Col(c), LitI(0))>>))
+    IN  IF jc # 0 THEN <<>>
+        ELSE pre(h[lc], lc) \o pre(h[rc], rc) \o <<MUnion(lc, rc, FALSE), MUnion(lc, rc, TRUE)>>
 
 (* a literal column on both sides (a different literal per side): after the union the column is no constant any more - it is *)
 (* grouped by / filtered on / counted                                                                                           *)
@@ -253,6 +269,9 @@ MovesReroot(h, kn) ==
         ELSE <<MAlias(i, "s", FALSE), MAlias(i, t.name, TRUE), MCollect(i, TRUE), MCollect(i, FALSE)>>
              \o selfOn
              \o (IF prev # 0 THEN <<MTransfer(i, prev), MTransfer(prev, i)>> ELSE <<>>)
+             \* a union of a table with a table derived from it (its own references must keep working afterwards)
+             \o (IF prev # 0 /\ h[prev].part = <<>> /\ t.part = <<>> /\ VisNames(h[prev]) = VisNames(t) /\ "u" \notin VisNames(t)
+                 THEN <<MUnion(prev, i, FALSE), MUnion(i, prev, TRUE)>> ELSE <<>>)
              \o MapS(b, LAMBDA c : MMutate(i, <<KV("b", Fn2("add", Col(c), LitI(1)))>>))       \* hidden column before re-rooting
              \o MapS(a, LAMBDA c : MRename(i, <<[c |-> Col(c), n |-> "k"]>>))
              \o (IF Len(t.vis) >= 2 THEN MapS(b, LAMBDA c : MDrop(i, <<Col(c)>>)) ELSE <<>>)
